@@ -175,6 +175,18 @@ def run(ctx):
                    no_inline=('frame.Frame._update_noise_frame_stats', 'frame.Frame.get_params'), expand=False)
     ctx.formula('PROPAGATE', 'the constructor stores a copy of the given data (not a view)', init, selfattr(r, 'data') or NONE,
                 ctx.spec(init, 'np.copy(DATA)', env={'DATA': sym('DATA')}), node=init.node, construct='self.data [data route]')
+    dv = selfattr(r, 'data')
+    da = dv.single_atom() if dv is not None else None
+    FRESH = {'copy', 'deepcopy', 'zeros', 'empty', 'full', 'ones'}
+    fresh = da is not None and da.kind == 'call' and da.args[0] in FRESH
+    if da is not None and da.kind == 'call' and da.args[0] == 'array':
+        # np.array copies by default; asarray/ascontiguousarray (normalised to `array`) and copy=False may return the input itself
+        src = [e for e in I.events if e.kind == 'store' and e.data.get('target') == 'attr' and e.data.get('name') == 'data']
+        txt = ast.unparse(src[-1].node.value) if src and hasattr(src[-1].node, 'value') else ''
+        fresh = ('np.array(' in txt or 'xp.array(' in txt) and 'copy=False' not in txt
+    ctx.ob('PROPAGATE', 'the data buffer of a frame built from data is always a fresh allocation (np.copy / np.array), never a '
+           'possible view of the caller\'s array (asarray, ascontiguousarray, reshape, the array itself)', init, fresh,
+           {'stored': pretty(dv)[:120] if dv is not None else None}, node=init.node, construct='self.data [freshness]')
     ctx.formula('PROPAGATE', 'the constructor takes t_start from its keyword', init, selfattr(r, 't_start') or NONE, sym('TS'),
                 node=init.node, construct='self.t_start [keyword]')
     ctx.formula('PROPAGATE', 'the constructor takes source_name from its keyword', init, selfattr(r, 'source_name') or NONE, sym('SN'),
